@@ -128,7 +128,12 @@ func (*c09) Gen(t core.RT, env *core.Env) any {
 		return &c09Case{Prop: "C09", Kind: "quotemeta", Pattern: core.QuoteHay(b), Quoted: true}
 	}
 	var p, src string
-	switch rapid.IntRange(0, 9).Draw(t, "src") {
+	switch rapid.IntRange(0, 10).Draw(t, "src") {
+	case 10:
+		// metadata shapes: named and unnamed groups under every kind of repetition,
+		// nested, in alternatives (SubexpNames/SubexpIndex/NumSubexp must not depend
+		// on where a group sits)
+		p, src = namedGroups(t, 0), "named-groups"
 	case 0, 1, 2:
 		pi := gen.Pattern(t, gen.AllOpts(), 1, 1)
 		p, src = pi.Pattern, "valid:"+pi.Source
@@ -155,6 +160,37 @@ func (*c09) Gen(t core.RT, env *core.Env) any {
 		probe = gen.Haystack(t, re, gen.HOpts{NonASCII: true, MaxLen: 64})
 	}
 	return &c09Case{Prop: "C09", Kind: "compile", Pattern: core.QuoteHay([]byte(p)), Quoted: true, Source: src, Probe: core.QuoteHay(probe)}
+}
+
+var groupQuants = []string{"", "", "?", "*", "+", "{0}", "{1}", "{2}", "{0,}", "{1,}", "{2,}", "{0,1}", "{1,3}", "{2,3}", "??", "*?", "+?", "{2,}?"}
+
+func namedGroups(t *rapid.T, depth int) string {
+	n := rapid.IntRange(1, 3).Draw(t, "ngn")
+	var sb strings.Builder
+	for i := 0; i < n; i++ {
+		var inner string
+		if depth < 2 && rapid.IntRange(0, 2).Draw(t, "ngnest") == 0 {
+			inner = namedGroups(t, depth+1)
+		} else {
+			inner = []string{"a", `\d`, "[ab]", "b|c", `\w+,`, "x?"}[rapid.IntRange(0, 5).Draw(t, "nginner")]
+		}
+		var g string
+		switch rapid.IntRange(0, 3).Draw(t, "ngkind") {
+		case 0:
+			g = "(" + inner + ")"
+		case 1:
+			g = "(?:" + inner + ")"
+		default:
+			name := []string{"n0", "digit", "item", "n", "x1", "Name_2"}[rapid.IntRange(0, 5).Draw(t, "ngname")]
+			g = "(?P<" + name + fmt.Sprint(depth, i) + ">" + inner + ")"
+		}
+		q := groupQuants[rapid.IntRange(0, len(groupQuants)-1).Draw(t, "ngq")]
+		sb.WriteString(g + q)
+		if rapid.IntRange(0, 3).Draw(t, "ngsep") == 0 {
+			sb.WriteString([]string{"|", "-", "z"}[rapid.IntRange(0, 2).Draw(t, "ngs")])
+		}
+	}
+	return sb.String()
 }
 
 func unq(s string) string {
